@@ -44,6 +44,8 @@ for seed in range(lo, hi + 1):
                 if ev['kind'] == 'cg': upd('c09 cg k/cgb', k / ev['cgb'], tag + (k, ev['cgb']))
                 upd('c09 agree_units', ev['agree_units'], tag)
                 if k > (10 * n + 100 if ev['fam'] == 'upw' else 4 * n + 40) or (ev['kind'] == 'cg' and k > ev['cgb']) or ev['agree_units'] > 1: fails.append(('conv', tag, k, ev['cgb'], ev['agree_units']))
+            elif op == 'ladder':
+                if not (ev['ok_k'] and ev['k_k'] == ev['k'] and ev['xh_k'] == ev['xh'] and ev['ok_k1'] and ev['k_k1'] == ev['k'] and ev['xh_k1'] == ev['xh'] and not ev['ok_km1']): fails.append(('ladder', tag, ev['k']))
             elif op == 'exact':
                 tot['exact_premise'] += ev['res0_zero']
                 if ev['res0_zero'] and not (ev['ok'] and ev['k'] == 0 and ev['xb_pre'] == ev['xb_post']): fails.append(('exact', tag))
